@@ -40,6 +40,7 @@ META = {
 }
 
 DATA_TYPES = (MSG_CHANNEL_DATA, MSG_CHANNEL_EXTENDED_DATA)
+chanpair.instrument()
 
 
 # ------------------------------------------------------------------ oracle
@@ -62,7 +63,7 @@ class TraceOracle:
         was_released = self.released()
         for raw in raws:
             t = raw[0]
-            if was_released and t != MSG_CHANNEL_WINDOW_ADJUST:
+            if was_released:
                 out.append(("message-sent-on-released-channel", {"side": side, "type": t, "op": op}))
             if t in DATA_TYPES:
                 if self.close[side]:
@@ -89,7 +90,10 @@ class TraceOracle:
 
 # ------------------------------------------------------------------ part 1: BFS
 OPS = ["send", "send_err", "shutdown_write", "shutdown2", "close", "exit_status", "resize_pty"]
-EVENTS = [(side, op) for side in "AB" for op in OPS] + [("A", "deliver"), ("B", "deliver")]
+# asymmetric extras: B sends a chunk larger than A's ack threshold, B aborts with CLOSE but no EOF (legal
+# for any peer), A reads
+EVENTS = ([(side, op) for side in "AB" for op in OPS] + [("A", "deliver"), ("B", "deliver")]
+          + [("B", "send_big"), ("B", "raw_close"), ("A", "recv")])
 
 
 def do_op(chan, op):
@@ -102,6 +106,10 @@ def do_op(chan, op):
         if op == "sendall":
             chan.sendall(b"abcdefghij")
             return ("ret", None)
+        if op == "send_big":
+            return ("ret", chan.send(b"B" * 4000))
+        if op == "recv":
+            return ("ret", len(chan.recv(1 << 20)))
         if op == "shutdown_write":
             chan.shutdown_write()
         elif op == "shutdown2":
@@ -128,6 +136,7 @@ class World:
         self.cp.b.settimeout(0.0)
         self.o = TraceOracle()
         self.problems = []
+        self.gone = set()     # sides whose application aborted (raw CLOSE): a stand-in for a foreign peer
 
     def _new(self, side):
         sent = self.cp.side(side)[0].packetizer.sent
@@ -150,6 +159,21 @@ class World:
             self.problems += o.feed(to, self._new(to), "handler(%d)" % raw[0])
             if raw[0] == MSG_CHANNEL_CLOSE and o.close[to] < 1:
                 self.problems.append(("peer-close-not-answered", {"side": to}))
+        elif op == "raw_close":
+            # the peer application died: its side sends CLOSE without EOF and forgets the channel
+            t, c = cp.side(side)[0], cp.side(side)[1]
+            if not c.closed:
+                self.gone.add(side)
+                m = Message()
+                m.add_byte(bytes([MSG_CHANNEL_CLOSE]))
+                m.add_int(c.remote_chanid)
+                c.lock.acquire()
+                c._set_closed()
+                c.lock.release()
+                t.packetizer.send_message(m)
+                self.problems += o.feed(side, self._new(side), op)
+        elif side in self.gone:
+            return            # that application no longer exists; only its in-flight messages remain
         else:
             chan = cp.side(side)[1]
             do_op(chan, op)
@@ -166,7 +190,8 @@ class World:
         def flags(c, t):
             return (c.closed, c.eof_sent, bool(c.eof_received), bool(c.active), t._channels.get(c.chanid) is not None)
         return (flags(cp.a, cp.ta), flags(cp.b, cp.tb), tuple(r[0] for r in cp.outbox("A")),
-                tuple(r[0] for r in cp.outbox("B")), self.o.canon())
+                tuple(r[0] for r in cp.outbox("B")), self.o.canon(), tuple(sorted(self.gone)),
+                len(cp.a.in_buffer) > 3276, len(cp.b.in_buffer) > 3276)
 
 
 def build(hist):
@@ -257,6 +282,16 @@ def make_race_body(scn, lines=True):
         a, b = cp.a, cp.b
         a.settimeout(0.0)
         o = TraceOracle()
+        if peer == "adjust":
+            # the writer starts blocked on a zero window; the wire thread lets the peer application
+            # read (which produces a WINDOW_ADJUST) and delivers it
+            while a.out_window_size > 0:
+                a.send(b"p" * a.out_window_size)
+            cp.deliver_all()
+            a.settimeout(None)
+            o.feed("A", list(cp.ta.packetizer.sent), "pre")
+        pre_sent = len(cp.ta.packetizer.sent)
+        a._vlog = []
         if peer in ("eof", "close"):
             (b.shutdown_write if peer == "eof" else b.close)()
             o.feed("B", list(cp.tb.packetizer.sent), "pre")
@@ -271,8 +306,15 @@ def make_race_body(scn, lines=True):
                 raw = cp.outbox("B")[0]
                 cp.deliver("B")
                 delivered.append(raw[0])
+        def reader():
+            b.settimeout(0.0)
+            b.recv(1 << 30)
+            while cp.outbox("B"):
+                cp.deliver("B")
         if peer in ("eof", "close"):
             ths.append(vthreading.Thread(target=wire))
+        if peer == "adjust":
+            ths.append(vthreading.Thread(target=reader))
         s.branching = True
         s.line_points = lines
         for t in ths:
@@ -288,7 +330,8 @@ def make_race_body(scn, lines=True):
         if MSG_CHANNEL_CLOSE in delivered:
             o.delivered_close("A")
         # A's emissions in wire order
-        problems += o.feed("A", list(cp.ta.packetizer.sent), writer)
+        problems += o.feed("A", list(cp.ta.packetizer.sent[pre_sent:]), writer)
+        late_alloc = chanpair.allocations_after_shutdown(a)
         if MSG_CHANNEL_CLOSE in delivered and o.close["A"] < 1:
             problems.append(("peer-close-not-answered", {"side": "A"}))
         # post phase: deliver everything, then every operation must stay silent once released
@@ -310,13 +353,13 @@ def make_race_body(scn, lines=True):
                     problems.append(("not-released-after-both-closes", {"side": who}))
             for who in "AB":
                 c = cp.side(who)[1]
-                for op in OPS + ["sendall"]:
+                for op in OPS + ["sendall", "recv"]:
                     do_op(c, op)
                     sent = cp.side(who)[0].packetizer.sent
                     problems += o.feed(who, sent[o.seen[who]:], op)
                     o.seen[who] = len(sent)
-        trace = [chanpair.parse(r)[2][0] for r in cp.ta.packetizer.sent]
-        return problems, tuple(trace)
+        trace = [chanpair.parse(r)[2][0] for r in cp.ta.packetizer.sent[pre_sent:]]
+        return problems, tuple(trace), late_alloc
     return body
 
 
@@ -332,13 +375,16 @@ def race_item(item, acc):
             acc.violation("race:harness-outcome:%s:%s" % (ex.outcome, type(ex.error).__name__),
                           {"scn": scn, "err": repr(ex.error)}, {"part": "race", "scn": scn, "choices": ex.choices})
             return
-        problems, trace = ex.value
+        problems, trace, late_alloc = ex.value
         if trace not in traces:
             traces.add(trace)
             acc.nt(("race", scn, trace))
         for pr in problems:
             clause, d = pr
-            key = make_key(clause, d, "writer-racing-close-or-shutdown")
+            # the recorded race = window allocated before the shutdown, message transmitted after it;
+            # an allocation made after the write side was shut is a different defect
+            key = make_key(clause, d, "window-allocated-after-shutdown" if late_alloc and clause.startswith("data-after")
+                           else "writer-racing-close-or-shutdown")
             acc.violation(key, {"scn": scn, "why": d, "wire_trace_A": list(trace), "choices": ex.choices},
                           {"part": "race", "scn": scn, "choices": ex.choices, "lines": lines})
     res = explore.explore(body, bound, "preempt", cap=30000, on_exec=on_exec, sched_kw=kw)
@@ -436,9 +482,19 @@ def main(tier):
     for e in EVENTS:
         if e[1] != "deliver":
             items.append(("bfs", tier, depth, (e,)))
+    # non-initial states: BFS continues from hand-picked deep prefixes (released / half-closed channels
+    # that still hold unread data above the acknowledgement threshold)
+    deep = [
+        [("B", "send_big"), ("B", "deliver"), ("B", "raw_close"), ("B", "deliver"), ("A", "deliver"), ("A", "deliver")],
+        [("B", "send_big"), ("B", "deliver"), ("A", "close"), ("A", "deliver"), ("A", "deliver"), ("B", "deliver"), ("B", "deliver")],
+        [("B", "send_big"), ("B", "deliver"), ("B", "shutdown_write"), ("B", "deliver"), ("A", "shutdown_write")],
+        [("B", "send_big"), ("B", "send_big"), ("B", "deliver"), ("A", "close")],
+    ]
+    for pre in deep:
+        items.append(("bfs", tier, len(pre) + (2 if quick else 3), tuple(pre)))
     writers = ["send", "send_err", "sendall"]
     closer_sets = [("close",), ("shutdown_write",), ("shutdown2",)] + ([("close", "close"), ("shutdown_write", "close")])
-    peers = ["idle", "close", "eof"]
+    peers = ["idle", "close", "eof", "adjust"]
     for w in writers:
         for cs in closer_sets:
             for pr in peers:
